@@ -473,6 +473,8 @@ func c14Exec(g *c14Rig, c c14Call) (stream bool) {
 	prog := "hold"
 	if c.Kind == 1 && c.Outcome != "deadline" {
 		prog = "echo"
+	} else if c.Cut%2 == 1 {
+		prog = "holdhdr"
 	}
 	var ctx context.Context
 	var cancel context.CancelFunc
@@ -492,7 +494,7 @@ func c14Exec(g *c14Rig, c c14Call) (stream bool) {
 	}
 	if c.Outcome != "deadline" {
 		nSend := c.NSend
-		if prog == "hold" && nSend > 1 {
+		if prog != "echo" && nSend > 1 {
 			// A handler that does not read takes one message into its queue; a second one would block the
 			// server's read loop in front of the caller's reset (C11's subject, not this property's).
 			nSend = 1
